@@ -134,8 +134,9 @@ Theorem restart_lands : forall m s a,
   smod_okb m = true -> 0 <= sq s < sm_nseq m -> 0 <= ord s -> xxo m (entry m (sq s)) < sm_npat m -> on_end_marker m s = false ->
   entry m (sq s) <= zgd (sm_scan_ord m) (sq s) -> 1 <= zgd (sm_scan_num m) (sq s) ->
   let '(s1, _) := control m s Restart in
+  fl s1 = flow_reset /\
   exists s2, play_frame m s1 a = FOk s2 /\ pos s2 = entry m (sq s) /\ row s2 = 0 /\ frame s2 = 0 /\ sq s2 = sq s /\ loopc s2 = 0.
-Proof. intros m s a Hok. apply okb_okP in Hok. apply (SeekProofs.restart_lands m Hok). Qed.
+Proof. intros m s a Hok H1 H2 H3 H4 H5 H6. apply okb_okP in Hok. split; [reflexivity|]. apply (SeekProofs.restart_lands m Hok); assumption. Qed.
 Print Assumptions restart_lands.
 
 (* after xmp_stop_module the next frame reports the end *)
